@@ -84,9 +84,11 @@ impl<'n> TryFromNode<'n> for Field {
                 });
             }
 
-            let namespace: Option<Rc<Namespace>> = namespace_ref
-                .and_then(|ns| doc.find_namespace_by_abbreviation(ns))
-                .cloned();
+            let namespace: Option<Rc<Namespace>> = match namespace_ref {
+                Some(ns) => doc.find_namespace_by_abbreviation(ns).cloned(),
+                // an unprefixed reference names a component of the schema's own namespace
+                None => doc.current_target_namespace.clone(),
+            };
 
             let ref_node = doc.find_node_by_xml_name(&node, xml_name, namespace.as_deref());
             let ref_node = ref_node
